@@ -21,7 +21,7 @@ structure XInv (S R : Ep) (H : List Msg) : Prop where
   hist : ∀ p ∈ H, PktOK S p
   reconf : ∀ r ∈ S.reconfigs, ReqMatch S r.1 r.2.1 r.2.2
   rreqs : ∀ r ∈ R.rreqs, ReqMatch S r.1 r.2.1 r.2.2 ∧ r.1 ∉ R.perf
-  rreqUniq : ∀ r ∈ R.rreqs, ∀ r' ∈ R.rreqs, r.1 = r'.1 → r = r'
+  rreqUniq : R.rreqs.Pairwise (fun a b => a.1 ≠ b.1)
   perf : ∀ rsn ∈ R.perf, ∃ rec ∈ S.reqLog, rec.rsn = rsn ∧ rec.last ≤ R.cum
   rcvSent : ∀ t ∈ R.rcv, ∃ c ∈ S.sent, c.tsn = t
   cumLt : R.cum < S.nextTSN
@@ -243,8 +243,7 @@ theorem XInv.perform {S R : Ep} {H : List Msg} (inv : XInv S R H) (rsn last : Na
     rcases List.mem_cons.mp hmem with h | h
     · exact hr2 h
     · exact (h3 r hr1).2 h
-  · intro r hr r' hr' heq
-    exact h3' r ((mem_erase _ _ _).mp hr).1 r' ((mem_erase _ _ _).mp hr').1 heq
+  · exact h3'.sublist (by unfold erase; exact List.filter_sublist)
   · intro x hx
     rcases List.mem_cons.mp hx with rfl | hx
     · obtain ⟨rec, hrec, a, b, _⟩ := hm
@@ -478,13 +477,10 @@ theorem XInv.addRreq {S R : Ep} {H : List Msg} (inv : XInv S R H) (rsn last : Na
     rcases hr with rfl | hr
     · exact ⟨hm, hn⟩
     · exact h3 r ((mem_erase _ _ _).mp hr).1
-  · intro r hr r' hr' heq
-    simp only [insert, List.mem_cons] at hr hr'
-    rcases hr with rfl | hr <;> rcases hr' with rfl | hr'
-    · rfl
-    · exact absurd heq.symm ((mem_erase _ _ _).mp hr').2
-    · exact absurd heq ((mem_erase _ _ _).mp hr).2
-    · exact h3' r ((mem_erase _ _ _).mp hr).1 r' ((mem_erase _ _ _).mp hr').1 heq
+  · unfold insert
+    refine List.pairwise_cons.mpr ⟨?_, h3'.sublist (by unfold erase; exact List.filter_sublist)⟩
+    intro r hr
+    exact fun heq => ((mem_erase _ _ _).mp hr).2 heq.symm
 
 theorem handleReq_xinv {S R : Ep} {H : List Msg} (inv : XInv S R H) (rsn last : Nat) (sids : List Nat)
     (hm : ReqMatch S rsn last sids) : XInv S (handleReq R rsn last sids).1 H := by
